@@ -713,6 +713,26 @@ def r07_4(ctx):
                         return k, f"through alias `{alias}`: {why}"
             return "ok", f"local alias `{alias}`, used by subscripting / membership only"
         return "bad", f"`{ast.unparse(astq.stmt_of(fi, n))[:70]}`"
+    def ops_of(fi, pm, n, depth=0):
+        """The special methods / attributes a use of the cache slot (or of a local alias of it) needs."""
+        par = pm.get(n)
+        if isinstance(par, ast.Subscript) and par.value is n:
+            return {"__setitem__" if isinstance(par.ctx, ast.Store) else "__delitem__" if isinstance(par.ctx, ast.Del)
+                    else "__getitem__"}
+        if isinstance(par, ast.Compare) and n in par.comparators:
+            return {"__contains__"}
+        if isinstance(par, ast.Call) and n in par.args and isinstance(par.func, ast.Name) and par.func.id == "len":
+            return {"__len__"}
+        if isinstance(par, ast.Attribute) and par.value is n:
+            return {par.attr}
+        if isinstance(par, ast.Assign) and par.value is n and len(par.targets) == 1 and isinstance(par.targets[0], ast.Name) \
+                and depth == 0:
+            out = set()
+            for m in own_nodes(fi.node):
+                if isinstance(m, ast.Name) and m.id == par.targets[0].id and isinstance(m.ctx, ast.Load):
+                    out |= ops_of(fi, pm, m, 1)
+            return out
+        return set()
     n_uses = 0
     for fi in model.functions.values():
         if isinstance(fi.node, ast.Lambda):
@@ -727,6 +747,16 @@ def r07_4(ctx):
                     rep.ok("R07.4", astq.loc(fi, n), construct, "constructor binding")
                     continue
                 kind, why = use_kind(fi, pm, n)
+                # every cache class the constructor may install answers the operation (cache_size = 0 installs a stub that
+                # is not a dict: an operation only dicts have raises AttributeError / TypeError for that configuration)
+                for op in sorted(ops_of(fi, pm, n)):
+                    for cname in sorted({k for _, k in ctor_sites if k != "dict"}):
+                        c = model.cls(BI, cname)
+                        has = any(op in k.methods for k in model.mro(c)) or "dict" in model.external_bases(c)
+                        rep.check(has, "R07.4", astq.loc(fi, n), f"{construct}::protocol::{cname}.{op}",
+                                  f"`{ast.unparse(astq.stmt_of(fi, n))[:70]}` applies `{op}` to the cache, which {cname} (the "
+                                  f"cache installed for cache_size {'== 0' if cname == '_EmptyDict' else '>= 1'}) does not "
+                                  f"provide: every query on such an object raises", f"{cname} provides {op}")
                 if kind == "ok":
                     rep.ok("R07.4", astq.loc(fi, n), construct, why)
                 else:
